@@ -17,7 +17,9 @@ import (
 
 // C11: PeriodicalExecutor / BulkExecutor / ChunkExecutor run every added task exactly once;
 // Wait returns only after the callbacks of everything added before it have returned; a
-// panicking callback loses only its own batch.
+// panicking callback loses only its own batch.  The fourth variant drives sqlx.BulkInserter
+// (which is a PeriodicalExecutor with a statement-building container) on a stub SqlConn:
+// see inserter_test.go.
 
 func init() { logx.Disable() }
 
@@ -28,30 +30,45 @@ const (
 	vBulk = iota
 	vChunk
 	vPeriodical
+	vInserter
 )
 
-var vNames = []string{"BulkExecutor", "ChunkExecutor", "PeriodicalExecutor+custom container"}
+var vNames = []string{"BulkExecutor", "ChunkExecutor", "PeriodicalExecutor+custom container", "sqlx.BulkInserter on a stub SqlConn"}
+
+// burst items that are not Adds
+const (
+	burstFlush = -1
+	burstWait  = -2
+)
 
 const (
 	opAdd = iota
 	opFlush
 	opWait
 	opSync
+	// inserter only
+	opInsertBad
+	opUpdateOrDelete
+	opUpdateStmt
+	opUpdateStmtBad
+	opSetHandler
 )
 
-var opNames = []string{"add", "flush", "wait", "sync"}
+var opNames = []string{"add", "flush", "wait", "sync", "insert-with-wrong-arg-count", "update-or-delete", "update-stmt", "update-stmt-bad", "set-result-handler"}
 
 type op struct {
 	kind  int
 	think time.Duration
-	size  int // chunk bytes of the task (ChunkExecutor), weight 1 otherwise
+	size  int  // chunk bytes of the task (ChunkExecutor), weight 1 otherwise
+	q     bool // Flush (and the inserter's UpdateOrDelete / UpdateStmt): evaluate the "pending tasks were flushed" oracle at quiescence
+	arg   int  // inserter: statement template of an UpdateStmt
 }
 
 type plan struct {
 	variant   int
 	threshold int // tasks (bulk, custom container) or bytes (chunk)
 	interval  time.Duration
-	burst     []int // sizes of the tasks of the sequential burst phase (may be empty)
+	burst     []int // sequential burst phase (may be empty): sizes of the tasks; burstFlush / burstWait = a Flush / Wait call
 	prods     [][]op
 	cbWork    []time.Duration // per callback invocation (cyclic): 0, <1us = that many yields, else virtual time
 	panicAt   int             // callback invocation index that panics (-1: none)
@@ -59,6 +76,7 @@ type plan struct {
 	midWaiter time.Duration   // >0: an extra task that calls Wait at this instant
 	sniper    int             // 0 none; 1 one Add, 2 `threshold` Adds aimed at the tick on which the idle background goroutine quits
 	sniperOff time.Duration   // offset from that tick
+	ins       *insPlan        // variant vInserter only
 }
 
 type taskRec struct {
@@ -103,6 +121,10 @@ type world struct {
 	harnessTasks map[int]bool // engine ids of harness tasks (main + r.Go)
 	spawned      int          // harness tasks started with r.Go
 	curOp        map[int]string
+	opInv        map[int]int // logical clock at which the current executor call of a harness task was invoked
+
+	iw        *insWorld // variant vInserter only
+	abandoned bool      // the run is not judged any further (see abandon)
 
 	tolerate map[string]bool
 	inflight map[int]bool // ids of the tasks whose Add is in flight
@@ -125,8 +147,46 @@ type earlyWait struct {
 
 // failf reports a violation; early Wait returns observed before it come first.
 func (w *world) failf(class, format string, a ...any) {
+	if w.abandoned {
+		return
+	}
+	if strings.HasPrefix(class, observePrefix) {
+		w.observef(strings.TrimPrefix(class, observePrefix), format, a...)
+		return
+	}
 	w.settle()
+	if w.tolerate[class] {
+		// development mask (VERIF_C11_TOLERATE): count, do not fail
+		w.r.Probe("tolerated:" + class)
+		if w.r.Tracing() {
+			w.r.Logf("TOLERATED %s: %s", class, fmt.Sprintf(format, a...))
+		}
+		return
+	}
 	w.r.Fail(class, format, a...)
+}
+
+// observePrefix marks classes that are observed and counted (probe, trace line) but never
+// judged: behaviour that the inserter variant can see but that the property text does not
+// speak about (under which statement a row is executed, the order of UpdateOrDelete's
+// function and the flush).
+const observePrefix = "observe:"
+
+func (w *world) observef(name, format string, a ...any) {
+	w.r.Probe(strings.ReplaceAll(name, "/", "-"))
+	if w.r.Tracing() {
+		w.r.Logf("OBSERVED (not judged) %s: %s", name, fmt.Sprintf(format, a...))
+	}
+}
+
+// abandon stops judging the run: the rows of a statement could not be recovered, so
+// nothing can be said about exactly-once any more.
+func (w *world) abandon(probe string) {
+	if !w.abandoned {
+		w.settle()
+		w.abandoned = true
+		w.r.Probe(probe)
+	}
 }
 
 // settle classifies the recorded early Wait returns (the batch a missed task went into is
@@ -141,6 +201,9 @@ func (w *world) failf(class, format string, a ...any) {
 func (w *world) settle() {
 	pend := w.pending
 	w.pending = nil
+	if w.abandoned {
+		return
+	}
 	for _, ew := range pend {
 		class := "wait-early/batch-in-handoff"
 		for _, id := range ew.missed {
@@ -288,13 +351,24 @@ func drawWork(t *simrt.Tape, iv time.Duration) time.Duration {
 
 func drawPlan(t *simrt.Tape, tier string) *plan {
 	p := &plan{panicAt: -1}
-	p.variant = t.Intn(3)
+	// 0..2: the three executors, 3: sqlx.BulkInserter (a quarter of the runs)
+	p.variant = t.Intn(4)
+	if p.variant == vInserter {
+		drawInserterPlan(t, tier, p)
+		return p
+	}
 	p.interval = []time.Duration{100 * time.Millisecond, 10 * time.Millisecond, time.Second, 37 * time.Millisecond, 250 * time.Millisecond}[t.Intn(5)]
 	iv := p.interval
 	sizes := []int{1}
+	// the burst may also contain explicit Flush / Wait calls: the size accounting has to start
+	// from zero again after each of them
+	burstItems := []int{1, 1, 1, 1, burstFlush, burstWait}
 	if p.variant == vChunk {
 		p.threshold = []int{4, 1, 8, 16, 5}[t.Intn(5)]
-		sizes = []int{1, 2, 3, 5, 0, 8, 4}
+		// 0 = empty chunk; 17 and 40 are larger than every threshold: one oversized task alone
+		// reaches it
+		sizes = []int{1, 2, 3, 5, 0, 8, 4, 17, 40}
+		burstItems = []int{1, 2, 3, 5, 0, 8, 4, 17, 40, burstFlush, burstWait, 1, 2}
 	} else {
 		p.threshold = []int{2, 1, 3, 4, 5}[t.Intn(5)]
 	}
@@ -304,7 +378,7 @@ func drawPlan(t *simrt.Tape, tier string) *plan {
 			n = 12
 		}
 		for i := 0; i < n; i++ {
-			p.burst = append(p.burst, sizes[t.Intn(len(sizes))])
+			p.burst = append(p.burst, burstItems[t.Intn(len(burstItems))])
 		}
 	}
 	maxP, maxOps := 4, 5
@@ -322,6 +396,7 @@ func drawPlan(t *simrt.Tape, tier string) *plan {
 				o.kind = opAdd
 			case v < 10:
 				o.kind = opFlush
+				o.q = t.Chance(1, 3)
 			case v < 11:
 				o.kind = opWait
 			default:
@@ -370,6 +445,12 @@ func fmtOps(p *plan, ops []op) string {
 		if o.kind == opAdd && p.variant == vChunk {
 			fmt.Fprintf(&sb, "(%dB)", o.size)
 		}
+		if o.kind == opUpdateStmt || o.kind == opUpdateStmtBad {
+			fmt.Fprintf(&sb, "(S%d)", o.arg)
+		}
+		if o.q {
+			sb.WriteString("+check")
+		}
 	}
 	return strings.TrimSpace(sb.String())
 }
@@ -377,6 +458,9 @@ func fmtOps(p *plan, ops []op) string {
 func (p *plan) String() string {
 	var sb strings.Builder
 	fmt.Fprintf(&sb, "%s threshold=%d interval=%v burst=%v cbWork=[%s] panicAt=%d eventual=%v midWaiter=%v sniper=%d%+v", vNames[p.variant], p.threshold, p.interval, p.burst, fmtWork(p.cbWork), p.panicAt, p.eventual, p.midWaiter, p.sniper, p.sniperOff)
+	if p.ins != nil {
+		fmt.Fprintf(&sb, " %s", p.ins)
+	}
 	for i, ops := range p.prods {
 		fmt.Fprintf(&sb, " | P%d: %s", i, fmtOps(p, ops))
 	}
@@ -386,8 +470,14 @@ func (p *plan) String() string {
 // ---------------------------------------------------------------- callback
 
 // execute is the Execute callback handed to the executor.
-func (w *world) execute(vals []any) {
+func (w *world) execute(vals []any) { w.deliver(vals) }
+
+// deliver records one batch handed to the callback, models the callback's work (virtual
+// time, scheduling points, a panic) and checks that the batch slice is not changed under
+// the callback's feet while it runs.
+func (w *world) deliver(vals []any) *batchRec {
 	r := w.r
+	snapshot := append([]any(nil), vals...)
 	b := &batchRec{id: len(w.batches), start: w.tick(), startAt: r.Elapsed(), byTask: r.CurrentID()}
 	w.batches = append(w.batches, b)
 	for _, v := range vals {
@@ -427,6 +517,18 @@ func (w *world) execute(vals []any) {
 		if r.Tracing() {
 			r.Logf("callback #%d ends (panic=%v)", b.id, b.panicked)
 		}
+		// the batch belongs to the callback until it returns: Adds that continue meanwhile
+		// must not write into (or truncate) the slice it was given
+		same := len(vals) == len(snapshot)
+		for i := 0; same && i < len(vals); i++ {
+			same = vals[i] == snapshot[i]
+		}
+		if !same {
+			w.failf("batch-aliased", "the batch handed to callback #%d was %v when the callback started and is %v when it returns: the executor reuses the batch's storage for later Adds while the callback still runs", b.id, snapshot, vals)
+		}
+		if b.end-b.start > 1 && len(vals) > 0 {
+			r.Probe("batch-compared-after-other-events")
+		}
 	}()
 	switch d := w.p.cbWork[inv%len(w.p.cbWork)]; {
 	case d == 0:
@@ -442,6 +544,7 @@ func (w *world) execute(vals []any) {
 		r.Probe("callback-panicked")
 		panic(fmt.Sprintf("user-panic-in-callback-%d", inv))
 	}
+	return b
 }
 
 // ---------------------------------------------------------------- operations
@@ -454,6 +557,7 @@ func (w *world) guard(what string, fn func()) {
 		}
 	}()
 	w.curOp[w.r.CurrentID()] = what
+	w.opInv[w.r.CurrentID()] = w.clk
 	fn()
 	delete(w.curOp, w.r.CurrentID())
 }
@@ -479,13 +583,52 @@ func (w *world) add(prod, size int) *taskRec {
 	return rec
 }
 
-func (w *world) flush() {
+func (w *world) flush(check bool) {
 	if w.executing > 0 {
 		w.r.Probe("flush-while-executing")
 	}
-	w.tick()
+	inv := w.tick()
 	w.guard("Flush", func() { w.ex.Flush() })
 	w.tick()
+	if check {
+		w.checkFlushed("Flush", inv, "flush-left-pending-tasks")
+	}
+}
+
+// checkFlushed is the oracle of an explicit flush (Flush; the inserter's UpdateOrDelete and
+// UpdateStmt), evaluated by the caller right after the flush: every task whose Add had
+// returned before the flushing call was invoked must have been passed to the callback (the
+// callback need not have returned: that is only promised by Wait).  A task may legitimately
+// be in the hands of another flusher that took it out of the container earlier and has not
+// reached the callback yet, which cannot be observed; so the check is made at quiescence
+// (every other task has run as far as it can without time passing), only in runs without
+// injected stalls, and not while an Add call is in flight (its batch may be waiting for a
+// flusher that is busy in a slow callback).
+func (w *world) checkFlushed(what string, inv int, class string) {
+	r := w.r
+	if r.Cfg().StallPerMille > 0 {
+		r.Probe("flush-check-skipped-stalls")
+		return
+	}
+	r.Quiesce()
+	if r.Failed() {
+		return
+	}
+	if len(w.inflight) > 0 {
+		r.Probe("flush-check-skipped-add-in-flight")
+		return
+	}
+	r.Probe("oracle")
+	r.Probe("flush-check-evaluated")
+	var missed []int
+	for _, t := range w.tasks {
+		if t.addRet != 0 && t.addRet < inv && t.execs == 0 {
+			missed = append(missed, t.id)
+		}
+	}
+	if len(missed) > 0 {
+		w.failf(class, "%s invoked at event %d has returned and every task has run as far as it can, but tasks %v whose Add had returned before are still not passed to the callback (no Add call in flight)", what, inv, missed)
+	}
 }
 
 // wait calls Wait and checks, at the moment it returns, that every task whose Add had
@@ -595,22 +738,47 @@ func (w *world) reached(pending []int) bool {
 	return sum >= w.p.threshold
 }
 
-// burst: one sequential client adds tasks back to back before the first timer tick and
-// without Flush/Wait, so the only legitimate reason for an execution is the threshold:
-// exact reference model at quiescence.
+// burst: one sequential client adds tasks back to back before the first timer tick, so the
+// only legitimate reasons for an execution are the threshold and the client's own Flush /
+// Wait calls (after which the size accounting starts from zero again): exact reference
+// model at quiescence.
 func (w *world) burst() {
 	r, p := w.r, w.p
 	var pending []int
 	expected := map[int]bool{}
+	flushes := 0
 	for i, size := range p.burst {
-		rec := w.add(-1, size)
-		pending = append(pending, rec.id)
-		if w.reached(pending) {
+		switch size {
+		case burstFlush, burstWait:
+			if size == burstFlush {
+				w.flush(false)
+			} else {
+				w.wait("burst")
+			}
 			for _, id := range pending {
 				expected[id] = true
 			}
+			if len(pending) > 0 {
+				r.Probe("burst-flush-with-pending")
+			}
 			pending = nil
-			r.Probe("burst-threshold-reached")
+			flushes++
+		default:
+			rec := w.add(-1, size)
+			pending = append(pending, rec.id)
+			if size > p.threshold && p.variant == vChunk {
+				r.Probe("burst-oversized-task")
+			}
+			if w.reached(pending) {
+				for _, id := range pending {
+					expected[id] = true
+				}
+				pending = nil
+				r.Probe("burst-threshold-reached")
+				if flushes > 0 {
+					r.Probe("burst-threshold-reached-after-flush")
+				}
+			}
 		}
 		if r.Cfg().StallPerMille > 0 {
 			// with injected stalls "no task runnable" does not mean that the background goroutine has
@@ -631,14 +799,22 @@ func (w *world) burst() {
 		for _, t := range w.tasks {
 			switch {
 			case expected[t.id] && t.execs == 0:
-				w.failf("threshold-not-honoured", "after add #%d (sequential, before the first tick) tasks %v reached the threshold %d but task %d was not passed to the callback at quiescence", i, keys(expected), p.threshold, t.id)
+				w.failf("threshold-not-honoured", "after step #%d of the burst %v (sequential, before the first tick) tasks %v reached the threshold %d or were flushed explicitly, but task %d was not passed to the callback at quiescence", i, p.burst, keys(expected), p.threshold, t.id)
 				return
 			case !expected[t.id] && t.execs > 0:
-				w.failf("premature-flush", "after add #%d (sequential, before the first tick, no Flush/Wait) task %d was passed to the callback although the threshold %d was not reached (pending %v)", i, t.id, p.threshold, pending)
+				w.failf("premature-flush", "after step #%d of the burst %v (sequential, before the first tick) task %d was passed to the callback although the threshold %d was not reached since the last flush (pending %v, sizes %v)", i, p.burst, t.id, p.threshold, pending, w.sizesOf(pending))
 				return
 			}
 		}
 	}
+}
+
+func (w *world) sizesOf(ids []int) []int {
+	var out []int
+	for _, id := range ids {
+		out = append(out, w.tasks[id].size)
+	}
+	return out
 }
 
 func keys(m map[int]bool) []int {
@@ -662,9 +838,11 @@ func (w *world) unexecuted() (never, running []int) {
 	return
 }
 
+const opBudget = 3 * time.Hour
+
 func body(r *simrt.Run, tier string) {
 	p := drawPlan(r.Tape, tier)
-	w := &world{r: r, p: p, harnessTasks: map[int]bool{r.CurrentID(): true}, curOp: map[int]string{}, tolerate: map[string]bool{}, inflight: map[int]bool{}}
+	w := &world{r: r, p: p, harnessTasks: map[int]bool{r.CurrentID(): true}, curOp: map[int]string{}, opInv: map[int]int{}, tolerate: map[string]bool{}, inflight: map[int]bool{}}
 	for _, c := range strings.Split(os.Getenv("VERIF_C11_TOLERATE"), ",") {
 		if c != "" {
 			w.tolerate[c] = true
@@ -673,24 +851,30 @@ func body(r *simrt.Run, tier string) {
 	if r.Tracing() {
 		r.Logf("plan: %s", p)
 	}
-	r.Sample(map[string]any{"executor": vNames[p.variant], "threshold": p.threshold, "interval": p.interval.String(), "burst": len(p.burst),
+	sample := map[string]any{"executor": vNames[p.variant], "threshold": p.threshold, "interval": p.interval.String(), "burst": fmt.Sprint(p.burst),
 		"producers": len(p.prods), "first_producer": fmtOps(p, p.prods[0]), "callback_work": fmtWork(p.cbWork), "panic_at_invocation": p.panicAt,
-		"eventual_phase": p.eventual, "adds_aimed_at_quit_tick": p.sniper, "concurrent_waiter_at": p.midWaiter.String()})
+		"eventual_phase": p.eventual, "adds_aimed_at_quit_tick": p.sniper, "concurrent_waiter_at": p.midWaiter.String()}
+	if p.ins != nil {
+		sample["inserter"] = p.ins.String()
+	}
+	r.Sample(sample)
 	r.Probe("variant-" + vNames[p.variant][:4])
+
+	// whatever happens, the background flusher is not a leak of the harness
+	defer r.MarkBackground(func(name string) bool { return strings.Contains(name, bgSite) })
+	defer w.settle()
 
 	switch p.variant {
 	case vBulk:
 		w.ex = bulkEx{executors.NewBulkExecutor(w.execute, executors.WithBulkTasks(p.threshold), executors.WithBulkInterval(p.interval))}
 	case vChunk:
 		w.ex = chunkEx{executors.NewChunkExecutor(w.execute, executors.WithChunkBytes(p.threshold), executors.WithFlushInterval(p.interval))}
+	case vInserter:
+		w.bodyInserter()
+		return
 	default:
 		w.ex = periodicalEx{executors.NewPeriodicalExecutor(p.interval, &container{w: w, max: p.threshold})}
 	}
-	// whatever happens, the background flusher is not a leak of the harness
-	defer r.MarkBackground(func(name string) bool { return strings.Contains(name, bgSite) })
-	defer w.settle()
-
-	const opBudget = 3 * time.Hour
 
 	// ---- phase 0: sequential burst with the exact threshold model
 	if len(p.burst) > 0 {
@@ -716,7 +900,7 @@ func body(r *simrt.Run, tier string) {
 				case opAdd:
 					w.add(i, o.size)
 				case opFlush:
-					w.flush()
+					w.flush(o.q)
 				case opWait:
 					w.wait(fmt.Sprintf("producer%d", i))
 				case opSync:
@@ -739,56 +923,15 @@ func body(r *simrt.Run, tier string) {
 	}
 	w.raceProbes()
 
-	// ---- phase 1b (drawn): Add calls aimed at the timer tick on which the idle background
-	// goroutine decides to quit (its ticks are at start + k*interval; it quits on the first tick
-	// later than 10 intervals after its last execution)
-	if p.sniper > 0 && len(bgAlive(r)) > 0 {
-		k := (w.bgLastAt+10*p.interval-w.bgStartAt)/p.interval + 1
-		at := w.bgStartAt + k*p.interval + p.sniperOff
-		st := w.goTask("sniper", func() {
-			if d := at - r.Elapsed(); d > 0 {
-				r.Sleep(d)
-			}
-			if len(bgAlive(r)) > 0 {
-				r.Probe("add-aimed-at-quit-tick")
-			}
-			n := 1
-			if p.sniper == 2 {
-				n = p.threshold
-			}
-			for i := 0; i < n; i++ {
-				w.add(-2, 1)
-			}
-		})
-		if !w.joinOps(opBudget, st) || r.Failed() {
-			return
-		}
-		if w.bgSpawns() >= 2 {
-			r.Probe("background-quit-and-restarted")
-		}
+	// ---- phase 1b (drawn): Add calls aimed at the tick on which the idle flusher quits
+	if !w.sniperPhase() {
+		return
 	}
 
 	// ---- phase 2 (drawn): no Wait, no Flush - the periodic flush (or the flush of the quitting
 	// background goroutine) alone has to get every accepted task to the callback
-	if p.eventual {
-		r.Probe("eventual-phase")
-		// generous: the real executor needs at most two intervals plus the running callbacks
-		budget := 200*p.interval + 30*time.Second
-		step := 5 * p.interval
-		for spent := time.Duration(0); spent < budget; spent += step {
-			if never, running := w.unexecuted(); len(never) == 0 && len(running) == 0 {
-				break
-			}
-			if spent >= 30*p.interval {
-				step = budget / 8
-			}
-			r.Sleep(step)
-		}
-		r.Probe("oracle")
-		if never, running := w.unexecuted(); len(never) > 0 || len(running) > 0 {
-			w.failf("not-flushed-periodically", "%v after the last Add returned (no Flush/Wait outstanding) tasks are still not done: never passed to the callback %v, callback still running %v; alive: %v", budget, never, running, r.AliveTasks())
-			return
-		}
+	if p.eventual && !w.eventualPhase() {
+		return
 	}
 
 	// ---- phase 3: final Wait; everything must have been executed exactly once and returned
@@ -796,15 +939,85 @@ func body(r *simrt.Run, tier string) {
 	if !w.joinOps(opBudget, fw) || r.Failed() {
 		return
 	}
+	if !w.exactlyOnce("the final Wait returned") {
+		return
+	}
+
+	// ---- phase 4: drain past the idle period
+	w.drainPhase("the final Wait had returned")
+}
+
+// sniperPhase (drawn): Add calls aimed at the timer tick on which the idle background
+// goroutine decides to quit (its ticks are at start + k*interval; it quits on the first tick
+// later than 10 intervals after its last execution).
+func (w *world) sniperPhase() bool {
+	r, p := w.r, w.p
+	if p.sniper == 0 || len(bgAlive(r)) == 0 {
+		return true
+	}
+	k := (w.bgLastAt+10*p.interval-w.bgStartAt)/p.interval + 1
+	at := w.bgStartAt + k*p.interval + p.sniperOff
+	st := w.goTask("sniper", func() {
+		if d := at - r.Elapsed(); d > 0 {
+			r.Sleep(d)
+		}
+		if len(bgAlive(r)) > 0 {
+			r.Probe("add-aimed-at-quit-tick")
+		}
+		n := 1
+		if p.sniper == 2 {
+			n = p.threshold
+		}
+		for i := 0; i < n; i++ {
+			w.add(-2, 1)
+		}
+	})
+	if !w.joinOps(opBudget, st) || r.Failed() {
+		return false
+	}
+	if w.bgSpawns() >= 2 {
+		r.Probe("background-quit-and-restarted")
+	}
+	return true
+}
+
+// eventualPhase: no Wait, no Flush - the periodic flush (or the flush of the quitting
+// background goroutine) alone has to get every accepted task to the callback.
+func (w *world) eventualPhase() bool {
+	r, p := w.r, w.p
+	r.Probe("eventual-phase")
+	// generous: the real executor needs at most two intervals plus the running callbacks
+	budget := 200*p.interval + 30*time.Second
+	step := 5 * p.interval
+	for spent := time.Duration(0); spent < budget; spent += step {
+		if never, running := w.unexecuted(); len(never) == 0 && len(running) == 0 {
+			break
+		}
+		if spent >= 30*p.interval {
+			step = budget / 8
+		}
+		r.Sleep(step)
+	}
+	r.Probe("oracle")
+	if never, running := w.unexecuted(); len(never) > 0 || len(running) > 0 {
+		w.failf("not-flushed-periodically", "%v after the last Add returned (no Flush/Wait outstanding) tasks are still not done: never passed to the callback %v, callback still running %v; alive: %v", budget, never, running, r.AliveTasks())
+		return false
+	}
+	return true
+}
+
+// exactlyOnce: everything accepted has been passed to the callback exactly once.
+func (w *world) exactlyOnce(when string) bool {
+	r := w.r
 	r.Probe("oracle")
 	for _, t := range w.tasks {
 		switch {
 		case t.execs == 0:
-			w.failf("lost", "task %d (Add returned at event %d) was never passed to the callback although the final Wait returned; %d batches, panicked batches %v", t.id, t.addRet, len(w.batches), w.panicked())
-			return
+			w.failf("lost", "task %d (Add returned at event %d) was never passed to the callback although %s; %d batches, panicked batches %v", t.id, t.addRet, when, len(w.batches), w.panicked())
+			return false
 		case t.execs != 1:
 			w.failf("duplicate", "task %d passed to the callback %d times", t.id, t.execs)
-			return
+			return false
 		}
 	}
 	total := 0
@@ -822,27 +1035,33 @@ func body(r *simrt.Run, tier string) {
 	}
 	if total != len(w.tasks) {
 		w.failf("multiset", "%d tasks added, %d task deliveries to the callback", len(w.tasks), total)
-		return
+		return false
 	}
+	return true
+}
 
-	// ---- phase 4: drain past the idle period; nothing may execute any more (every delivery
-	// now would be a duplicate or a phantom and is caught in the callback), no callback may
-	// be running, and the calls must all have returned
+// drainPhase: past the idle period nothing may execute any more (every delivery now would
+// be a duplicate or a phantom and is caught in the callback), no callback may be running,
+// and the calls must all have returned.
+func (w *world) drainPhase(after string) bool {
+	r, p := w.r, w.p
 	nb := len(w.batches)
 	r.Sleep(14*p.interval + time.Second)
 	r.Quiesce()
 	for _, b := range w.batches[nb:] {
 		if len(b.tasks) > 0 {
-			w.failf("late-execution", "batch %d %v executed after the final Wait had returned and nothing was added", b.id, b.tasks)
-			return
+			w.failf("late-execution", "batch %d %v executed after %s and nothing was added", b.id, b.tasks, after)
+			return false
 		}
 	}
 	if w.executing > 0 {
-		w.failf("late-execution", "%d callbacks still running long after the final Wait returned", w.executing)
+		w.failf("late-execution", "%d callbacks still running long after %s", w.executing, after)
+		return false
 	}
 	if len(bgAlive(r)) == 0 {
 		r.Probe("background-quit-at-end")
 	}
+	return !r.Failed()
 }
 
 func bgAlive(r *simrt.Run) []string {
